@@ -408,6 +408,7 @@ func ruleENCPAIR(c *Ctx) []Obligation {
 	var obs []Obligation
 	// decoder sigils: `const prefix = "@"` / `const suffix = ":"` in the decoder of each token type
 	decSigil := map[string][2]string{}
+	cutsetUse := map[string]string{}
 	c.eachFunc(pkgASM, func(p *packages.Package, fd *ast.FuncDecl, fn *types.Func) {
 		sig := fn.Type().(*types.Signature)
 		if sig.Params().Len() != 1 || sig.Recv() != nil {
@@ -417,20 +418,10 @@ func ruleENCPAIR(c *Ctx) []Obligation {
 		if n == nil || n.Obj().Pkg() == nil || n.Obj().Pkg().Path() != pkgAST || !tokenTypes[n.Obj().Name()] {
 			return
 		}
-		var pre, suf string
-		ast.Inspect(fd.Body, func(nd ast.Node) bool {
-			if vs, ok := nd.(*ast.ValueSpec); ok && len(vs.Names) == 1 && len(vs.Values) == 1 {
-				if tv := p.TypesInfo.Types[vs.Values[0]]; tv.Value != nil && tv.Value.Kind() == constant.String {
-					switch vs.Names[0].Name {
-					case "prefix":
-						pre = constant.StringVal(tv.Value)
-					case "suffix":
-						suf = constant.StringVal(tv.Value)
-					}
-				}
-			}
-			return true
-		})
+		pre, suf, cutset := c.strippedSigils(p, fd, map[*types.Func]bool{})
+		if cutset != "" {
+			cutsetUse[n.Obj().Name()] = cutset
+		}
 		decSigil[n.Obj().Name()] = [2]string{pre, suf}
 	})
 	for _, pr := range encPairs {
@@ -462,6 +453,9 @@ func ruleENCPAIR(c *Ctx) []Obligation {
 			}
 			d, has := decSigil[pr.token]
 			switch {
+			case cutsetUse[pr.token] != "":
+				o.Verdict = VIOL
+				o.Detail = fmt.Sprintf("the decoder strips the sigil with %s, which removes every leading/trailing byte of the cutset, not one occurrence of the sigil: a name that itself begins with the sigil character (`$$x` is the comdat `$x`) loses part of its name", cutsetUse[pr.token])
 			case !has:
 				o.Verdict, o.Detail = UNDECIDED, "no decoder taking ast."+pr.token+" in package asm"
 			case pre != d[0] || suf != d[1]:
@@ -570,4 +564,78 @@ func ruleENCRAW(c *Ctx) []Obligation {
 		obs = append(obs, o)
 	})
 	return obs
+}
+
+// strippedSigils reads off a decoder which constant prefix / suffix it removes
+// from the token text: the constant second argument of strings.HasPrefix /
+// TrimPrefix (HasSuffix / TrimSuffix), directly or through a helper of package
+// asm that receives the constant as an argument. cutset names a strings.Trim /
+// TrimLeft / TrimRight call, which strips a set of bytes rather than one sigil.
+func (c *Ctx) strippedSigils(p *packages.Package, fd *ast.FuncDecl, visiting map[*types.Func]bool) (pre, suf, cutset string) {
+	info := p.TypesInfo
+	constOf := func(e ast.Expr, bind map[types.Object]string) (string, bool) {
+		if tv := info.Types[e]; tv.Value != nil && tv.Value.Kind() == constant.String {
+			return constant.StringVal(tv.Value), true
+		}
+		if id, ok := unparen(e).(*ast.Ident); ok {
+			if v, ok := bind[info.ObjectOf(id)]; ok {
+				return v, true
+			}
+		}
+		return "", false
+	}
+	var scan func(p *packages.Package, fd *ast.FuncDecl, bind map[types.Object]string)
+	scan = func(p *packages.Package, fd *ast.FuncDecl, bind map[types.Object]string) {
+		info = p.TypesInfo
+		ast.Inspect(fd.Body, func(nd ast.Node) bool {
+			call, ok := nd.(*ast.CallExpr)
+			if !ok {
+				return true
+			}
+			f := calleeOf(info, call)
+			if f == nil || f.Pkg() == nil {
+				return true
+			}
+			if f.Pkg().Path() == "strings" && len(call.Args) == 2 {
+				v, isConst := constOf(call.Args[1], bind)
+				switch f.Name() {
+				case "HasPrefix", "TrimPrefix":
+					if isConst {
+						pre = v
+					}
+				case "HasSuffix", "TrimSuffix":
+					if isConst {
+						suf = v
+					}
+				case "Trim", "TrimLeft", "TrimRight":
+					cutset = "strings." + f.Name()
+				}
+				return true
+			}
+			if f.Pkg().Path() == pkgASM && !visiting[f] {
+				hfd := c.funcDecl(f)
+				if hfd == nil || hfd.Body == nil {
+					return true
+				}
+				sig := f.Type().(*types.Signature)
+				nb := map[types.Object]string{}
+				for i, a := range call.Args {
+					if v, ok := constOf(a, bind); ok && i < sig.Params().Len() {
+						nb[sig.Params().At(i)] = v
+					}
+				}
+				if len(nb) == 0 {
+					return true
+				}
+				visiting[f] = true
+				saved := info
+				scan(c.declPkg[hfd], hfd, nb)
+				info = saved
+				delete(visiting, f)
+			}
+			return true
+		})
+	}
+	scan(p, fd, map[types.Object]string{})
+	return pre, suf, cutset
 }
